@@ -346,12 +346,19 @@ def k_trigger_unknown(f, rng):
     return Exp(r"There is no survey element with this name|must be a reference to another question that exists", "name", name="nosuch_trig", alt_patterns=(r"\[row : \d+\]",))
 
 
-@kind("background-geopoint", 2)
+@kind("background-geopoint", 3)
 def k_bg_geopoint(f, rng):
     tg = [r for r, a in f.walk() if r.kind == "q" and base_type(r) in ("text", "integer")]
-    which = rng.randrange(4)
+    which = rng.randrange(5)
     name = fresh(f, "bgp")
-    if which == 0:
+    secs = [r for r, a in f.walk() if r.is_section() and r.name]
+    if which == 4:
+        # the trigger names a group or a repeat: not "another question" - there is no control to hang the action on
+        if not secs:
+            return None
+        r = Row("q", "background-geopoint", name, {"trigger": "${%s}" % pick(rng, secs).name})
+        pat = r"For 'background-geopoint' questions, the 'trigger' column must be a reference"
+    elif which == 0:
         r = Row("q", "background-geopoint", name, {})
         pat = r"For 'background-geopoint' questions, the 'trigger' column must be a reference"
     elif which == 1:
